@@ -8,5 +8,7 @@ import (
 
 // Registry maps property id to its check.
 var Registry = map[string]func(p *load.Prog, r *oblig.Run){
+	"C01": C01,
+	"C04": C04,
 	"C06": C06,
 }
